@@ -33,6 +33,7 @@ import duckdb
 
 from vtlengine.duckdb_transpiler.Transpiler.operators import register_regex_functions
 from vtlengine.Exceptions import RunTimeError
+from vtlengine import _verif
 
 # =============================================================================
 # Decimal Configuration
@@ -203,11 +204,14 @@ def configure_duckdb_connection(conn: duckdb.DuckDBPyConnection) -> None:
     if max_temp_dir_size:
         statements.append(f"SET max_temp_directory_size = '{max_temp_dir_size}'")
 
+    _verif.event("configure:settings")
     conn.execute(";\n".join(statements))
 
+    _verif.event("configure:udf")
     # Register Python UDFs (regex fallback for patterns RE2 cannot compile).
     register_regex_functions(conn)
 
+    _verif.event("configure:decimal")
     # Module-level decimal config
     set_decimal_config()
 
@@ -234,13 +238,16 @@ def configured_connection(database: str = ":memory:") -> Iterator[duckdb.DuckDBP
     """Context manager that yields a configured DuckDB connection."""
     temp_dir = _temp_directory()
     Path(temp_dir).mkdir(parents=True, exist_ok=True)
+    _verif.event("conn:mkdir_session")
     session_dir = Path(temp_dir) / f"duckdb_tmp_{uuid.uuid4().hex}"
     session_dir.mkdir(exist_ok=True)
 
     if database == ":memory:" and not _use_in_memory_db():
         database = str(session_dir / "session.duckdb")
 
+    _verif.event("conn:connect")
     conn = create_configured_connection(database)
+    _verif.event("conn:set_session_temp")
     conn.execute(f"SET temp_directory = '{session_dir}'")
     try:
         yield conn
